@@ -55,6 +55,57 @@ def _callee_of(term, by_path):
     return p if p in by_path else None
 
 
+def splice(f, bi, g, upvars_unnamed=False):
+    """replace the call terminator of block bi of f by the (already deep-copied) body g: locals renumbered, arguments assigned to the parameters,
+    `return` turned into an assignment of the destination and a goto.  upvars_unnamed: debug names of places projected from parameter 1 (the
+    captures of a closure) are dropped as well, so that they are shown in the caller's terms."""
+    blk = f["blocks"][bi]
+    t = blk["term"]
+    loff = len(f["locals"])
+    boff = len(f["blocks"])
+    poff = len(f.get("promoted", []))
+    f["locals"].extend(copy.deepcopy(g["locals"]))
+    f.setdefault("promoted", []).extend(copy.deepcopy(g.get("promoted", [])))
+    for dbg in g.get("debug", []):
+        pl_ = (dbg.get("val") or {}).get("place")
+        if pl_ and upvars_unnamed and pl_["l"] == 1:
+            continue
+        if pl_ and not pl_["p"] and 1 <= pl_["l"] <= g["argc"]:
+            # parameters stay unnamed: they are single-definition temporaries (= the argument), so expressions over them are
+            # shown in terms of the caller's values (`self.block_writer`, not `self~2.block_writer`)
+            continue
+        nd = _remap(dbg, loff, boff, poff)
+        nd.pop("arg", None)
+        f["debug"].append(nd)
+    sp = t.get("sp")
+    # arguments -> parameters
+    for i, a in enumerate(t.get("args", [])):
+        blk["stmts"].append({"k": "assign", "lhs": {"l": loff + 1 + i, "p": []}, "rv": {"k": "use", "op": copy.deepcopy(a)}, "sp": sp})
+    dest = t.get("dest")
+    ret_to = t.get("t")
+    unwind = t.get("unwind")
+    for gb in g["blocks"]:
+        nb = {"cleanup": gb["cleanup"], "stmts": _remap(gb["stmts"], loff, boff, poff), "term": _remap(gb["term"], loff, boff, poff)}
+        nt = nb["term"]
+        k = nt["k"]
+        if k == "return":
+            if dest is not None:
+                nb["stmts"].append({"k": "assign", "lhs": copy.deepcopy(dest), "rv": {"k": "use", "op": {"m": {"l": loff, "p": []}}}, "sp": sp})
+            nb["term"] = {"k": "goto", "t": ret_to, "sp": sp} if ret_to is not None else {"k": "unreachable", "sp": sp}
+        else:
+            if isinstance(nt.get("t"), int):
+                nt["t"] = nt["t"] + boff
+            if isinstance(nt.get("unwind"), int):
+                nt["unwind"] = nt["unwind"] + boff
+            if k == "switch":
+                nt["targets"] = [[v, tt + boff] for v, tt in nt["targets"]]
+                nt["otherwise"] = nt["otherwise"] + boff
+            if k == "resume" and unwind is not None:
+                nb["term"] = {"k": "goto", "t": unwind, "sp": sp}
+        f["blocks"].append(nb)
+    blk["term"] = {"k": "goto", "t": boff, "sp": sp}
+
+
 def inline_program(d, baseline=None):
     """d: facts dict of one crate (mutated in place); returns the list of (caller, callee) pairs that were inlined"""
     if baseline is None:
@@ -84,47 +135,7 @@ def inline_program(d, baseline=None):
                     continue
                 g = copy.deepcopy(pristine[cp])
                 inline_into(g, depth + 1, stack + [cp])
-                loff = len(f["locals"])
-                boff = len(f["blocks"])
-                poff = len(f.get("promoted", []))
-                f["locals"].extend(copy.deepcopy(g["locals"]))
-                f.setdefault("promoted", []).extend(copy.deepcopy(g.get("promoted", [])))
-                for dbg in g.get("debug", []):
-                    pl_ = (dbg.get("val") or {}).get("place")
-                    if pl_ and not pl_["p"] and 1 <= pl_["l"] <= g["argc"]:
-                        # parameters stay unnamed: they are single-definition temporaries (= the argument), so expressions over them are
-                        # shown in terms of the caller's values (`self.block_writer`, not `self~2.block_writer`)
-                        continue
-                    nd = _remap(dbg, loff, boff, poff)
-                    nd.pop("arg", None)
-                    f["debug"].append(nd)
-                sp = t.get("sp")
-                # arguments -> parameters
-                for i, a in enumerate(t.get("args", [])):
-                    blk["stmts"].append({"k": "assign", "lhs": {"l": loff + 1 + i, "p": []}, "rv": {"k": "use", "op": copy.deepcopy(a)}, "sp": sp})
-                dest = t.get("dest")
-                ret_to = t.get("t")
-                unwind = t.get("unwind")
-                for gb in g["blocks"]:
-                    nb = {"cleanup": gb["cleanup"], "stmts": _remap(gb["stmts"], loff, boff, poff), "term": _remap(gb["term"], loff, boff, poff)}
-                    nt = nb["term"]
-                    k = nt["k"]
-                    if k == "return":
-                        if dest is not None:
-                            nb["stmts"].append({"k": "assign", "lhs": copy.deepcopy(dest), "rv": {"k": "use", "op": {"m": {"l": loff, "p": []}}}, "sp": sp})
-                        nb["term"] = {"k": "goto", "t": ret_to, "sp": sp} if ret_to is not None else {"k": "unreachable", "sp": sp}
-                    else:
-                        if isinstance(nt.get("t"), int):
-                            nt["t"] = nt["t"] + boff
-                        if isinstance(nt.get("unwind"), int):
-                            nt["unwind"] = nt["unwind"] + boff
-                        if k == "switch":
-                            nt["targets"] = [[v, tt + boff] for v, tt in nt["targets"]]
-                            nt["otherwise"] = nt["otherwise"] + boff
-                        if k == "resume" and unwind is not None:
-                            nb["term"] = {"k": "goto", "t": unwind, "sp": sp}
-                    f["blocks"].append(nb)
-                blk["term"] = {"k": "goto", "t": boff, "sp": sp}
+                splice(f, bi, g)
                 done.append((f["path"], cp))
                 changed = True
                 break
